@@ -171,9 +171,15 @@ func c17Run(c *Case) []any {
 			err = fmt.Errorf("nil document")
 			msg = err.Error()
 		}
+		if rd2, _, e2 := c17TagJSON(&doc2); e2 == nil { // the input after the call
+			line["rd2"] = rd2
+		}
 		return fail("to3", c17Outcome(p, err), msg)
 	}
 	line["to3"] = "ok"
+	if rd2, _, e2 := c17TagJSON(&doc2); e2 == nil { // the input after the call: a conversion must not edit its argument
+		line["rd2"] = rd2
+	}
 	d3, text3, err := c17TagJSON(doc3) // before FromV3, which edits its argument in places
 	if err != nil {
 		return fail("to3", "error", "marshal of the converted document: "+err.Error())
@@ -215,6 +221,9 @@ func c17Run(c *Case) []any {
 		return fail("from3", c17Outcome(p, err), msg)
 	}
 	line["from3"] = "ok"
+	if d3b, _, e3 := c17TagJSON(doc3); e3 == nil { // the input of FromV3 after the call
+		line["d3b"] = d3b
+	}
 	d2b, _, err := c17TagJSON(doc2b)
 	if err != nil {
 		return fail("from3", "error", "marshal of the document converted back: "+err.Error())
